@@ -109,7 +109,9 @@ CLAIMS = {
                    "a refusal leaves both sets untouched -- its clause 'different scalings are refused' is REFUTED on the pinned tree (known finding, replayed natively)); BOUNDED (deciding): random operation sequences (<=8 ops over 14 operations) on data sets incl. empty, single, ties, "
                    "unlabelled: range ends, revert restores, multiset of (sample,label) preserved, attributes carried, refusals without modification."),
     "C19": bounded("PROVED kernel (any number of samples): Classification._evaluate reports wrong == number of positions where assigned class and true label differ, "
-                   "total == number of classified samples, percentage == 1 - wrong/total, and refuses only when the two lengths differ. "
+                   "total == number of classified samples, percentage == 1 - wrong/total, and refuses only when the two lengths differ; Classification.test_data / __call__ (scaling, label split, concatenation and arg-max classification abstract): "
+                   "the classes of earlier data are never changed, new classes are appended in order and stay aligned with the recorded tested samples, unlabelled samples are set aside, "
+                   "the summary covers exactly the newly tested samples. "
                    "BOUNDED (deciding): synthetic labelled sets, standard and dimension-wise learning, sequences of __call__/test_data with data inside/partly/entirely outside: arg-max clause "
                    "against independently evaluated per-class densities, out-of-range removal, summary consistency, history stability."),
     "C20": bounded("PROVED kernel (any number of component grids): all six coefficient-optimisation variants (error per grid, least squares on the validation set, Garcke's linear "
